@@ -180,6 +180,7 @@ func cmdCheck(argv []string) int {
 		perHarness                                                            []map[string]any
 		reachAll                                                              = map[string]int{}
 	)
+	var notes []string
 	for i, r := range results {
 		h := hs[i]
 		states += r.Completed
@@ -230,6 +231,10 @@ func cmdCheck(argv []string) int {
 		}
 		for k, c := range r.Cex {
 			desc := h.Fn + " " + c.What
+			if strings.HasPrefix(c.What, "PANIC") && !h.Panics {
+				notes = append(notes, fmt.Sprintf("%s: reachable %s (reproduced natively: %v) - outside this property's claim", h.Fn, c.What, c.Reproduced))
+				continue
+			}
 			if !c.Reproduced {
 				unconfirmed = append(unconfirmed, desc+" (solver witness did not reproduce natively: "+c.Native+")")
 				continue
@@ -297,6 +302,12 @@ func cmdCheck(argv []string) int {
 	}
 	for _, s := range vissues {
 		fmt.Println("VALIDATION-MISMATCH:", s)
+	}
+	for _, s := range notes {
+		fmt.Println("NOTE:", s)
+	}
+	for _, s := range keysSorted(havoc) {
+		fmt.Println("HAVOC:", s, "(unmodelled external callee: results unconstrained)")
 	}
 	for _, s := range unconfirmed {
 		fmt.Println("UNCONFIRMED:", s)
